@@ -689,28 +689,33 @@ func RunDupAssign(w *World, r *Report, fns []*ssa.Function) {
 			dup := token.NoPos
 			nReset := 0
 			for _, s := range list {
-				t := ""
+				var ts []string
 				switch x := s.(type) {
 				case *ast.AssignStmt:
-					if x.Tok != token.ASSIGN || len(x.Lhs) != 1 || len(x.Rhs) != 1 {
+					if x.Tok != token.ASSIGN || len(x.Lhs) != len(x.Rhs) {
 						// any other statement between two resets ends the group
 						seen = map[string]token.Pos{}
 						continue
 					}
 					pure := true
-					ast.Inspect(x.Rhs[0], func(m ast.Node) bool {
-						if c, ok := m.(*ast.CallExpr); ok {
-							if id, ok := c.Fun.(*ast.Ident); !ok || id.Name != "make" {
-								pure = false
+					for _, rhs := range x.Rhs {
+						ast.Inspect(rhs, func(m ast.Node) bool {
+							if c, ok := m.(*ast.CallExpr); ok {
+								if id, ok := c.Fun.(*ast.Ident); !ok || id.Name != "make" {
+									pure = false
+								}
 							}
-						}
-						return true
-					})
+							return true
+						})
+					}
 					if !pure {
 						seen = map[string]token.Pos{}
 						continue
 					}
-					t = types.ExprString(x.Lhs[0]) + " = " + types.ExprString(x.Rhs[0])
+					// a, b = x, y resets a and b
+					for i := range x.Lhs {
+						ts = append(ts, types.ExprString(x.Lhs[i])+" = "+types.ExprString(x.Rhs[i]))
+					}
 				case *ast.ExprStmt:
 					c, ok := x.X.(*ast.CallExpr)
 					if !ok {
@@ -722,16 +727,18 @@ func RunDupAssign(w *World, r *Report, fns []*ssa.Function) {
 						seen = map[string]token.Pos{}
 						continue
 					}
-					t = types.ExprString(c)
+					ts = append(ts, types.ExprString(c))
 				default:
 					seen = map[string]token.Pos{}
 					continue
 				}
-				nReset++
-				if _, ok := seen[t]; ok {
-					dup = s.Pos()
+				for _, t := range ts {
+					nReset++
+					if _, ok := seen[t]; ok {
+						dup = s.Pos()
+					}
+					seen[t] = s.Pos()
 				}
-				seen[t] = s.Pos()
 			}
 			if nReset >= 2 {
 				key := r.MkKey("dupassign", name, fmt.Sprintf("reset group of %d statements", nReset))
